@@ -562,6 +562,7 @@ fn dns_scenario(seed: u64) -> ScenarioOut {
     let desc = json!({"dns_seed": seed, "v6": v6, "names": n});
     let name = |i: usize| format!("{}-{}", ["node", "db", "web", "cache"][i % 4], i);
     let mut known: BTreeMap<String, std::net::IpAddr> = BTreeMap::new();
+    let mut literal_hosts: BTreeSet<std::net::IpAddr> = BTreeSet::new();
     let mut order: Vec<usize> = (0..n).collect();
     r.shuffle(&mut order);
     let in_host: Rc<RefCell<Vec<(String, std::net::IpAddr, Option<String>)>>> = Rc::new(RefCell::new(vec![]));
@@ -570,10 +571,29 @@ fn dns_scenario(seed: u64) -> ScenarioOut {
     for k in 0..nops {
         let i = if k < n { order[k] } else { r.usize_below(n) };
         let nm = name(i);
+        // now and then a host is registered by literal address, a little ahead of what the
+        // allocator has handed out so far: that address is in use from then on
+        if registered < 40 && r.chance(0.04) {
+            let kk = (known.len() + literal_hosts.len()) as u64 + r.range(1, 4);
+            let lit: std::net::IpAddr = if v6 {
+                std::net::IpAddr::V6(std::net::Ipv6Addr::new(0xfe80, 0, 0, 0, 0, 0, (kk >> 16) as u16, kk as u16))
+            } else {
+                std::net::IpAddr::V4(std::net::Ipv4Addr::new(192, 168, (kk / 256) as u8, (kk % 256) as u8))
+            };
+            if !known.values().any(|v| *v == lit) && !literal_hosts.contains(&lit) && (kk % 256) != 0 && (kk % 256) != 255 {
+                sim.client(lit, async { Ok(()) });
+                registered += 1;
+                literal_hosts.insert(lit);
+                out.count("hosts_registered_by_literal_address", 1);
+            }
+        }
         match r.below(10) {
             0..=4 => {
                 let a = sim.lookup(nm.as_str());
                 out.count("lookups_by_name", 1);
+                if !known.contains_key(&nm) && literal_hosts.contains(&a) {
+                    out.violate("duplicate-address", format!("C15|dns|duplicate-address|literal-host|v6={v6}"), format!("{nm} resolves to {a}, the address of a host that was registered by literal address"), desc.clone());
+                }
                 if let Some(prev) = known.get(&nm) {
                     if *prev != a {
                         out.violate("unstable-address", "C15|dns|unstable-address".into(), format!("{nm} resolved to {prev} and later to {a}"), desc.clone());
@@ -595,6 +615,13 @@ fn dns_scenario(seed: u64) -> ScenarioOut {
             5 => {
                 // register a host under this name (allocates if new); hosts can only be registered once
                 if registered < 40 && !known.contains_key(&nm) {
+                    // allocate first: registering on top of another host's address would panic
+                    let a0 = sim.lookup(nm.as_str());
+                    if literal_hosts.contains(&a0) {
+                        out.violate("duplicate-address", format!("C15|dns|duplicate-address|literal-host|v6={v6}"), format!("{nm} resolves to {a0}, the address of a host that was registered by literal address"), desc.clone());
+                        known.insert(nm, a0);
+                        continue;
+                    }
                     let ih = in_host.clone();
                     let probe = name(r.usize_below(n));
                     sim.client(nm.as_str(), async move {
@@ -724,6 +751,6 @@ fn fin() -> Finish<'static> {
             "the peer never resets streams, so a held TcpStream keeps its port until the harness drops it".into(),
         ],
         min_distinct: 100,
-        required_counters: vec!["ephemeral_assignments", "addr_in_use_observed", "refused_connects", "cancelled_connects", "crashes", "histories_with_wraparound", "final_table_checks", "accepted_streams", "regex_lookups", "reverse_lookups", "in_host_lookups"],
+        required_counters: vec!["ephemeral_assignments", "addr_in_use_observed", "refused_connects", "cancelled_connects", "crashes", "histories_with_wraparound", "final_table_checks", "accepted_streams", "regex_lookups", "reverse_lookups", "in_host_lookups", "hosts_registered_by_literal_address"],
     }
 }
